@@ -49,6 +49,9 @@ def gen(rng):
         if kind == "led":
             p = [pins.pop()]
             d = f"{name} = Led({p[0]})"
+            if rng.random() < 0.3 and where == "pre":
+                # the pin comes from a variable computed in the prologue: configuration happens where the declaration is
+                d = f"pinbase = {p[0] - 2}\nledpin = pinbase + 2\n{name} = Led(ledpin)"
         elif kind == "rgb":
             p = [pins.pop() for _ in range(3)]
             d = f"{name} = RGBLed({p[0]}, {p[1]}, {p[2]})"
@@ -61,6 +64,8 @@ def gen(rng):
         elif kind == "button":
             p = [pins.pop()]
             d = f"{name} = Button({p[0]})"
+            if rng.random() < 0.5:
+                d = f"def on_press():\n    mon.write(\"clk\")\n\n{name} = Button({p[0]}, on_click=on_press)"
         elif kind == "pot":
             p = [14 + rng.randint(0, 1)]
             d = f"{name} = Potentiometer(\"A{p[0] - 14}\")"
@@ -104,6 +109,8 @@ def gen(rng):
     mon_decl = "mon = SerialMonitor(9600)"
     pre_decls = [d for w, d in decls if w == "pre"]
     loop_decls = [d for w, d in decls if w == "loop"]
+    if any("on_press" in d for d in pre_decls):
+        serial_first = True   # the callback writes to the monitor: declared first (a def before the device it uses is a known finding)
     if serial_first:
         pre.append(mon_decl)
         pre += pre_decls
@@ -117,6 +124,13 @@ def gen(rng):
             pre.append(f"mon = SerialMonitor({bd})")
             bauds.append(bd)
             pre.append(marker("pre"))
+    btn_tape = rng.choice([[0, 1, 1, 0, 1], [1, 0, 1, 1, 0], [1, 1, 0, 0, 1]])
+    prologue_read = None
+    pre_btns = [d for d in devices if d["kind"] == "button" and d["where"] == "pre"]
+    if pre_btns and rng.random() < 0.5:
+        # a read in the run-once prologue sees the start-up sample (also for a button that has a callback)
+        pre.append(f"mon.write(f\"p0={{int({pre_btns[0]['name']}.is_pressed())}}\")")
+        prologue_read = btn_tape[0]
     pre.append("count = 0")
     pre.append("acc = 1")
     if rng.random() < 0.6:
@@ -199,12 +213,12 @@ def gen(rng):
         body.append(f"sleep({rng.choice([1, 10, 60])})")
     L += pre
     if has_main:
-        L.append("while True:")
+        L.append("while True:" + rng.choice(["", "", "  # main loop", " # forever:", "  #"]))
         L += ["    " + b for b in body]
     tapes = {"D": {}, "A": {}, "P": {}}
     for d in devices:
         if d["kind"] == "button":
-            tapes["D"][str(d["pins"][0])] = [0, 1, 1, 0, 1]
+            tapes["D"][str(d["pins"][0])] = list(btn_tape)
         if d["kind"] == "pot":
             tapes["A"][str(d["pins"][0])] = [100, 200, 300, 400, 500, 600]
         if d["kind"] == "us":
@@ -212,7 +226,8 @@ def gen(rng):
     animated = any(".animate(" in x for x in pre)
     baud_seq = bauds
     return "\n".join(L) + "\n", {"pre_ids": pre_ids, "loop_ids": loop_ids, "devices": devices, "has_main": has_main,
-                                 "animated_in_setup": animated and has_main, "bauds": baud_seq, "blk": blk, "opening": opening if has_main else None, "looplocal": has_main and looplocal}, tapes
+                                 "animated_in_setup": animated and has_main, "bauds": baud_seq, "blk": blk, "opening": opening if has_main else None, "looplocal": has_main and looplocal, "btn_tape": btn_tape, "prologue_read": prologue_read,
+                                 "callback": any("on_press" in d for w, d in decls)}, tapes
 
 
 USE_KINDS = {"DW", "AW", "DR", "AR", "TONE", "NOTONE", "PULSE"}
@@ -249,7 +264,7 @@ def monitor(events, meta, passes):
             text = trace.unesc(f[0])
             if "NOBEGIN" in f[2:]:
                 problems.append(("serial-before-begin", f"Serial used before Serial.begin (line {text!r})"))
-            if text.startswith(("c=", "b=", "b0=", "p=", "s=", "l=")):
+            if text.startswith(("c=", "b=", "b0=", "p=", "p0=", "s=", "l=")):
                 values.append((cur, text))
             if text.startswith("S") and text[1:].isdigit():
                 n = int(text[1:])
@@ -300,11 +315,13 @@ def monitor(events, meta, passes):
     # ---- variable lifetime: values carry over from the prologue and from pass to pass exactly as in Python
     want = []
     blk = meta.get("blk")
+    if meta.get("prologue_read") is not None:
+        want.append((-1, f"p0={meta['prologue_read']}"))
     if blk is not None:
         want.append((-1, f"b0={blk}"))
     if meta["has_main"]:
         acc = 1
-        tape = [0, 1, 1, 0, 1]
+        tape = meta.get("btn_tape") or [0, 1, 1, 0, 1]
         for k in range(passes):
             acc += k + 1
             if meta.get("opening") == "button":
@@ -373,6 +390,10 @@ def run_case(case):
         # a device declared inside the loop body is a fresh Python object on every pass but one hoisted device on the
         # board: only scripts declaring everything before the loop are compared with CPython
         comparable = not any(d["where"] == "loop" for d in meta["devices"])
+        if meta.get("callback") and (not meta["has_main"] or meta["btn_tape"][0] == 1):
+            # a script without a main loop ends in Python while the board keeps polling (and firing the callback); a button held
+            # at power-up is "already pressed" on the board but a rising edge for the freshly created host object
+            comparable = False
         for n in (0, 1, 2, 3):
             f = fw.run(b["binary"], wd, passes=n, tapes=tapes)
             r = {"n": n, "fw_status": f["status"]}
